@@ -8,6 +8,7 @@ Writes seeded/RESULTS_<tier>.json (which checks catch which change)."""
 import json, os, subprocess, sys, glob, time, tempfile, shutil
 HERE = os.path.dirname(os.path.abspath(__file__))
 REPO = "/repo"
+RUN = HERE
 args = [a for a in sys.argv[1:] if not a.startswith("--")]
 inplace = "--in-place" in sys.argv
 tier = args[0] if args else "quick"
@@ -23,6 +24,12 @@ else:
     target = os.path.join(scratch, "repo")
     subprocess.run(["git", "-C", REPO, "worktree", "add", "-q", "--detach", target, "HEAD"], check=True)
     env.update(GBASIS_REPO=target, VERIF_EVIDENCE_DIR=os.path.join(scratch, "evidence"), VERIF_REPLAY_DIR=os.path.join(scratch, "replays"))
+    # the checks run from a snapshot of the machinery, so that /verif can be edited while this runs
+    RUN = os.path.join(scratch, "verif")
+    subprocess.run(["rsync", "-a", "--exclude", ".git", "--exclude", ".venv", "--exclude", "replays", "--exclude", "__pycache__", HERE + "/", RUN + "/"], check=True)
+    if not os.path.exists(os.path.join(HERE, ".venv")):
+        subprocess.run([os.path.join(HERE, "setup.sh")], check=True, cwd=HERE)
+    os.symlink(os.path.join(HERE, ".venv"), os.path.join(RUN, ".venv"))
 try:
     for d in sorted(glob.glob(os.path.join(HERE, "seeded", "*", ""))):
         sid = os.path.basename(os.path.dirname(d))
@@ -39,7 +46,7 @@ try:
             out = {}
             for prop in meta.get("checks", [meta["property"]]):
                 t = time.time()
-                p = subprocess.run([os.path.join(HERE, "vcheck"), prop, "--tier", tier], capture_output=True, text=True, cwd=HERE, env=env)
+                p = subprocess.run([os.path.join(RUN, "vcheck"), prop, "--tier", tier], capture_output=True, text=True, cwd=RUN, env=env)
                 viol = [l for l in p.stdout.splitlines() if l.startswith("VIOLATION")]
                 out[prop] = {"exit": p.returncode, "violations": len(viol), "confirmed_by_native_replay": sum(1 for l in viol if not l.rstrip().endswith("no-failing-input-found")),
                              "first": viol[0][:300] if viol else None, "secs": round(time.time() - t, 1), "summary": p.stdout.strip().splitlines()[-1][:200] if p.stdout.strip() else ""}
